@@ -716,11 +716,47 @@ class Ev(object):
         st.approx.append((self.site(n, env), tag))
         return [(st, App(tag, [Const(ast.unparse(n))] + vals))]
 
+    def _comp_map(self, tag, n, env, st):
+        """[elt for v in it] with one generator and no filter: map(lambda v: elt, it).
+        A known list is mapped element-wise; otherwise the result is maplam(body, it)
+        with the bound variable replaced by a positional placeholder (name-independent)."""
+        if len(n.generators) != 1 or n.generators[0].ifs or n.generators[0].is_async \
+                or not isinstance(n.generators[0].target, ast.Name):
+            return self._opaque_expr(tag, n, env, st)
+        g = n.generators[0]
+        res = []
+        for s1, it in self.expr(g.iter, env, st):
+            if isinstance(it, TupleV):
+                outs = [(s1, ())]
+                for item in it.items:
+                    nxt = []
+                    for s2, acc in outs:
+                        e2 = self._cp(env)
+                        e2["locals"] = dict(e2["locals"])
+                        e2["locals"][g.target.id] = item
+                        for s3, v in self.expr(n.elt, e2, s2):
+                            nxt.append((s3, acc + (v,)))
+                    outs = nxt
+                res += [(s2, TupleV(acc, "list")) for s2, acc in outs]
+                continue
+            ph = Sym("\u03bb%d" % self.depth)
+            e2 = self._cp(env)
+            e2["locals"] = dict(e2["locals"])
+            e2["locals"][g.target.id] = ph
+            mark = len(self.raised)
+            bodies = self.expr(n.elt, e2, s1.fork())
+            if len(bodies) != 1 or len(self.raised) > mark:
+                del self.raised[mark:]
+                res += self._opaque_expr(tag, n, env, s1)
+                continue
+            res.append((s1, mk_app("maplam", (bodies[0][1], it))))
+        return res
+
     def e_ListComp(self, n, env, st):
-        return self._opaque_expr("listcomp", n, env, st)
+        return self._comp_map("listcomp", n, env, st)
 
     def e_GeneratorExp(self, n, env, st):
-        return self._opaque_expr("genexp", n, env, st)
+        return self._comp_map("genexp", n, env, st)
 
     def e_SetComp(self, n, env, st):
         return self._opaque_expr("setcomp", n, env, st)
@@ -1310,6 +1346,7 @@ class Ev(object):
         e2 = self._cp(env)
         bind(e2)
         st.approx.append((self.site(n, env), "loop body evaluated for one symbolic iteration"))
+        st.log.append(("loop-enter", self.site(n, env)))
         paths = self.block(n.body, e2, st)
         out = []
         for p in paths:
